@@ -30,6 +30,11 @@ def files():
             continue
         if t.strip():
             out.append((str(p.relative_to(boot.CORPUS)), t))
+    # hand-written idiom files: constructs that the anchored code special-cases (sys.version_info comparisons,
+    # sys.path / __all__ manipulation, typing, dataclasses, enum, namedtuple, functools, ...)
+    for p in sorted((boot.VERIF / "vendor" / "idioms").glob("*.py")):
+        for _ in range(4):      # weight: four entries each
+            out.append(("idioms/" + p.name, p.read_text(encoding="utf-8")))
     return out
 
 
@@ -90,7 +95,8 @@ def token_bounds(text):
     return [m.start() for m in re.finditer(r"\w+|[^\w\s]", text)] + [m.end() for m in re.finditer(r"\w+|[^\w\s]", text)]
 
 
-MUTATORS = ["none", "prefix_char", "prefix_token", "del_line", "dup_line", "swap_lines", "del_token", "ins_token",
+NUMBER_FORMS = ["0", "1", "3.8", "0x3", "1e3", "3j", "0o7", "0b1", "1_000", "-1", "10**2", ".5", "1.", "0xFFFFFFFFFFFFFFFFFFFF"]
+MUTATORS = ["none", "num_swap", "prefix_char", "prefix_token", "del_line", "dup_line", "swap_lines", "del_token", "ins_token",
             "indent", "dedent", "crlf", "cr", "mixed_eol", "tabs", "formfeed", "continuation", "strip_final_nl",
             "unicode_ident", "bom", "soup_insert", "del_char", "ins_char"]
 
@@ -105,6 +111,11 @@ def mutate(draw, text, kinds=None):
         lines = text.split("\n")
         if m == "none":
             pass
+        elif m == "num_swap":
+            nums = list(re.finditer(r"(?<![\w.])\d[\d_]*(?![\w.])", text))
+            if nums:
+                t = draw(st.sampled_from(nums))
+                text = text[:t.start()] + draw(st.sampled_from(NUMBER_FORMS)) + text[t.end():]
         elif m == "prefix_char" and text:
             text = text[:draw(st.integers(0, len(text)))]
         elif m == "prefix_token" and text:
